@@ -12,6 +12,7 @@ impl<'a, 'b> CwKey for (&'a Addr, &'b str) { open spec fn key_path(&self) -> Seq
 pub axiom fn axiom_addr_bytes(a: Addr)
     ensures a.bytes() == str_bytes(a.s@);
 
+//@ canary addr_len let s = Seq::<char>::new(0x10000, |i: int| 'a'); let a = Addr { s: str_of(s) }; axiom_str_of_view(s); axiom_addr_bytes(a); axiom_str_bytes_ascii(s); axiom_addr_len(a); axiom_str_canon(a.s);
 impl<K: CwKey, V: CwVal> Map<K, V> {
     // Map::update = may_load, action, save (src/map.rs): nothing is written unless the action returns Ok
     #[verifier::external_body]
